@@ -396,7 +396,7 @@ def r7_probabilities_immutable(ctx, rule):
                             'the default run, the --skip_brute run and the --all_lower run must see the probabilities the loader '
                             'produced; rescaling them afterwards (e.g. "normalise trimmed rulesets" only when skip_brute is off) '
                             'makes skip_brute no longer the default run rescaled by 1/(1-P(Markov))', None, node)
-    if ctx.floor(rule, 'lib_guesser', n, 2, "stores to ['prob'] in the guesser") and not bad:
+    if ctx.floor(rule, 'lib_guesser', n, 1, "stores to ['prob'] in the guesser") and not bad:
         ctx.ok(rule, 'lib_guesser', "outside the loader, ['prob']/['values'] are only stored into pt_items built in the same function")
 
 
